@@ -16,6 +16,9 @@ import (
 var formatPkgs = []string{"css", "html", "js", "json", "svg", "xml"}
 
 func init() {
+	mutant(&Mutant{Name: "c14-copy-error-overwritten-by-close", Property: "C14", File: "minify.go",
+		Old: "\t} else if _, err := io.Copy(in, r); err != nil {\n\t\treturn err\n\t}\n", New: "\t} else {\n\t\t_, err := io.Copy(in, r)\n\t\tif err = in.Close(); err != nil {\n\t\t\treturn err\n\t\t}\n\t}\n",
+		Rule: "R14.8", Construct: "error of io.Copy(in,r) is used before err is assigned again"})
 	register(&Property{
 		ID:    "C14",
 		Level: "other",
@@ -74,6 +77,7 @@ func runC14(c *Ctx) {
 	c.r145()
 	c.r146()
 	c.r147()
+	c.r148()
 }
 
 // minifierMethods returns the Minify methods of type Minifier in the format packages.
@@ -1049,4 +1053,140 @@ func (c *Ctx) r147() {
 		}
 	}
 	c.R.Note("R14.7: %d buffering writers in library functions outside the Minify methods", n)
+}
+
+// R14.8: an error is looked at before the variable that holds it is assigned again.
+func (c *Ctx) r148() {
+	const rule = "R14.8"
+	c.R.Rule(rule, "in the functions of the library that move data between the caller's reader / writer and something else (io.Copy, io.ReadAll, Read, Write, Close, Flush, Sync bound to an error variable), no path leads from the assignment of the error to another assignment of the same variable without a use of it in between (a test, a return, an argument). `_, err := io.Copy(in, r); if err = in.Close(); err != nil` reports only the Close: a reader that fails after k bytes yields a truncated input that is processed as if it were complete, and Minify returns nil")
+	ioCall := func(info *types.Info, ce *ast.CallExpr) bool {
+		n := calleeName(info, ce)
+		switch {
+		case n == "io.Copy", n == "io.CopyN", n == "io.CopyBuffer", n == "io.ReadAll", n == "io.ReadFull", n == "io.WriteString":
+			return true
+		}
+		for _, suf := range []string{").Read", ").Write", ").Close", ").Flush", ").Sync", ").ReadFrom", ").WriteTo"} {
+			if strings.HasSuffix(n, suf) {
+				return true
+			}
+		}
+		return false
+	}
+	n := 0
+	for _, rel := range libPkgs {
+		pk := c.P.Pkg(rel)
+		if pk == nil {
+			continue
+		}
+		info := pk.TypesInfo
+		for _, fd := range load.FuncDecls(pk) {
+			if fd.Body == nil {
+				continue
+			}
+			// candidate assignments
+			type site struct {
+				as  *ast.AssignStmt
+				obj types.Object
+			}
+			var sites []site
+			ast.Inspect(fd.Body, func(x ast.Node) bool {
+				if _, ok := x.(*ast.FuncLit); ok {
+					return false
+				}
+				as, ok := x.(*ast.AssignStmt)
+				if !ok || len(as.Rhs) != 1 {
+					return true
+				}
+				ce, ok := ast.Unparen(as.Rhs[0]).(*ast.CallExpr)
+				if !ok || !ioCall(info, ce) {
+					return true
+				}
+				for _, l := range as.Lhs {
+					id, ok := l.(*ast.Ident)
+					if !ok || id.Name == "_" {
+						continue
+					}
+					o := info.Defs[id]
+					if o == nil {
+						o = info.Uses[id]
+					}
+					if o != nil && isErrorType(o.Type()) {
+						sites = append(sites, site{as, o})
+					}
+				}
+				return true
+			})
+			if len(sites) == 0 {
+				continue
+			}
+			g := c.graph(pk, fd)
+			reads := func(q *flow.Node, obj types.Object) bool {
+				a := q.Ast()
+				if a == nil {
+					return false
+				}
+				hit := false
+				var lhs map[*ast.Ident]bool
+				if as, ok := a.(*ast.AssignStmt); ok {
+					lhs = map[*ast.Ident]bool{}
+					for _, l := range as.Lhs {
+						if id, ok := l.(*ast.Ident); ok {
+							lhs[id] = true
+						}
+					}
+				}
+				ast.Inspect(a, func(z ast.Node) bool {
+					if _, ok := z.(*ast.FuncLit); ok {
+						hit = true // captured: may be read later
+						return false
+					}
+					if id, ok := z.(*ast.Ident); ok && !lhs[id] && info.Uses[id] == obj {
+						hit = true
+					}
+					return true
+				})
+				return hit
+			}
+			writes := func(q *flow.Node, obj types.Object) bool {
+				as, ok := q.Stmt.(*ast.AssignStmt)
+				if !ok || q.Kind != flow.KStmt {
+					return false
+				}
+				for _, l := range as.Lhs {
+					if id, ok := l.(*ast.Ident); ok && (info.Uses[id] == obj || info.Defs[id] == obj) {
+						return true
+					}
+				}
+				return false
+			}
+			for _, s := range sites {
+				from := g.NodeOf(s.as)
+				if from == nil {
+					continue
+				}
+				// named results are read by every return
+				n++
+				p := g.Path(flow.Search{From: []*flow.Node{from}, Goal: func(q *flow.Node) bool { return q != from && writes(q, s.obj) && !reads(q, s.obj) },
+					Avoid: func(q *flow.Node) bool {
+						if q == from {
+							return false
+						}
+						if reads(q, s.obj) {
+							return true
+						}
+						if rs := retStmt(q); rs != nil && len(rs.Results) == 0 {
+							return true // bare return reads named results
+						}
+						return false
+					}})
+				c.R.Check(p == nil, rule, fmt.Sprintf("%s.%s/error of %s is used before %s is assigned again", pk.Name, load.FuncName(fd), nospace(str(s.as.Rhs[0])), s.obj.Name()), c.pos(s.as), "tested, returned or passed on first",
+					"the error of "+str(s.as.Rhs[0])+" is overwritten before anything looks at it: the failure is lost and the function goes on with incomplete data: "+pathStr(c, g, p))
+			}
+		}
+	}
+	c.R.Floor(rule, "errors of reader / writer operations bound to a variable", n, 3)
+}
+
+func isErrorType(t types.Type) bool {
+	return t != nil && types.Identical(t, types.Universe.Lookup("error").Type())
 }
